@@ -5,7 +5,7 @@
    quantify over all such histories.  Model.v mirrors lib/coroutine.nelua and the C functions
    of lib/detail/minicoro.nelua. *)
 From Coq Require Import List Arith ZArith Bool String.
-From C18 Require Import Gen Model ProofsStorage ProofsInv ProofsErr ProofsTrans ProofsFuel ProofsValues ProofsReg Proofs.
+From C18 Require Import Gen Model ProofsStorage ProofsInv ProofsErr ProofsTrans ProofsFuel ProofsValues ProofsReg ProofsFrame ProofsOps Proofs.
 Import ListNotations.
 Local Open Scope list_scope.
 
@@ -41,17 +41,84 @@ Theorem C18_storage_within_capacity : forall gc ops k c, get k (cos (reach gc op
 Proof. exact storage_within_capacity. Qed.
 Print Assumptions C18_storage_within_capacity.
 
-(* every command moves every coroutine along the documented state machine [tr]; a coroutine
-   object disappears only by a destroy (or the <close> of a handle) of that very coroutine *)
+(* every command moves every coroutine along the documented state machine [tr]; a coroutine object disappears
+   only by a destroy (or the <close> of a handle, or the loss of its only handle) of that very coroutine; Normal ->
+   Dead within one command happens only at the end of the script.  [tr] does not depend on the command: the
+   transition table per operation is the next five theorems. *)
 Theorem C18_state_machine : forall gc ops o j,
   tr (stof (reach gc ops) j) (stof (fst (step o (reach gc ops))) j) /\
-  (stof (fst (step o (reach gc ops))) j = None -> stof (reach gc ops) j <> None -> o = ODestroy j \/ o = OClose j).
+  (stof (fst (step o (reach gc ops))) j = None -> stof (reach gc ops) j <> None -> o = ODestroy j \/ o = OClose j \/ o = OForget j) /\
+  (stof (reach gc ops) j = Some Normal -> stof (fst (step o (reach gc ops))) j = Some Dead -> exists rets n, o = OEnd rets n).
 Proof. exact state_machine. Qed.
 Print Assumptions C18_state_machine.
 
+(* coroutine.resume(k, ...): success <-> k was Suspended and is now Running and current, the resumer (if a
+   coroutine) went Running -> Normal, every other coroutine keeps its state; failure: nobody changes state *)
+Theorem C18_resume_transition : forall gc ops k vals r s1, let s := reach gc ops in co_resume k vals s = (r, s1) ->
+  (r = COk ->
+     stof s k = Some Suspended /\ stof s1 k = Some Running /\ current s1 = Some k /\
+     (forall p, current s = Some p -> stof s p = Some Running /\ stof s1 p = Some Normal) /\
+     (forall j, j <> k -> current s <> Some j -> stof s1 j = stof s j)) /\
+  (r <> COk -> current s1 = current s /\ forall j, stof s1 j = stof s j).
+Proof. exact resume_transition_all. Qed.
+Print Assumptions C18_resume_transition.
+
+(* coroutine.yield(...) by the running coroutine k: k -> Suspended, its resumer Normal -> Running and current *)
+Theorem C18_yield_transition : forall gc ops k c vals r s1, let s := reach gc ops in
+  current s = Some k -> get k (cos s) = Some c -> co_yield vals s = (r, s1) ->
+  (r = COk ->
+     stof s k = Some Running /\ stof s1 k = Some Suspended /\ current s1 = co_prev c /\
+     (forall p, co_prev c = Some p -> stof s p = Some Normal /\ stof s1 p = Some Running) /\
+     (forall j, j <> k -> co_prev c <> Some j -> stof s1 j = stof s j)) /\
+  (r <> COk -> current s1 = current s /\ forall j, stof s1 j = stof s j).
+Proof. exact yield_transition_all. Qed.
+Print Assumptions C18_yield_transition.
+
+(* the body of the running coroutine k returns: k -> Dead, its resumer Normal -> Running and current *)
+Theorem C18_return_transition : forall gc ops k c rets s1, let s := reach gc ops in
+  current s = Some k -> get k (cos s) = Some c -> finish_body k rets s = (COk, s1) ->
+  stof s k = Some Running /\ stof s1 k = Some Dead /\ current s1 = co_prev c /\
+  (forall p, co_prev c = Some p -> stof s p = Some Normal /\ stof s1 p = Some Running) /\
+  (forall j, j <> k -> co_prev c <> Some j -> stof s1 j = stof s j).
+Proof. exact return_transition_all. Qed.
+Print Assumptions C18_return_transition.
+
+(* push / pop / peek / drop / status / isyieldable / running / deeper frames / gc / sub never change a state or
+   the current coroutine, and neither does ANY failed call of the library (create and destroy: see
+   C18_state_machine and C18_destroy_behaviour) *)
+Theorem C18_quiet_commands : forall gc ops o j, let s := reach gc ops in
+  (ctl_neutral o -> stof (fst (step o s)) j = stof s j /\ current (fst (step o s)) = current s) /\
+  (forall r s', api o s = Some (CErr r, s') -> stof s' j = stof s j /\ current s' = current s).
+Proof. exact quiet_commands_all. Qed.
+Print Assumptions C18_quiet_commands.
+
+(* storage frame: a command changes the stored bytes only of the coroutine it addresses ([addressed]: the target
+   of create/resume/push/pop/drop/destroy/close/forget, the running coroutine for yield and ret, everybody for
+   the end of the script) - so values given to a coroutine wait there, unmodified and in order, while other
+   coroutines run (second theorem: over any further command list that does not address it) *)
+Theorem C18_storage_frame : forall gc ops o j, ~ addressed o (reach gc ops) j ->
+  stor (fst (step o (reach gc ops))) j = stor (reach gc ops) j.
+Proof. exact storage_frame. Qed.
+Print Assumptions C18_storage_frame.
+
+Theorem C18_storage_frame_run : forall gc ops more j, quiet j more (reach gc ops) ->
+  stor (fst (run more (reach gc ops))) j = stor (reach gc ops) j.
+Proof. exact storage_frame_run. Qed.
+Print Assumptions C18_storage_frame_run.
+
+(* coroutine.pop(co, &x1..&xn) exactly, also when it fails midway: the values are popped last argument first
+   ([unfit]); success iff all of them can be popped; on a failure (always MCO_NOT_ENOUGH_SPACE) the values popped so
+   far stay popped - documented: "the values may not be set", no rollback - and nothing else changes *)
+Theorem C18_pop_effect : forall gc ops k c lens, let s := reach gc ops in get k (cos s) = Some c ->
+  exists vs, co_pop k lens s =
+    (if snd (unfit (storage c) (rev lens)) then COk else CErr MCO_NOT_ENOUGH_SPACE, vs,
+     with_st s k c (fst (unfit (storage c) (rev lens)))).
+Proof. exact pop_effect_all. Qed.
+Print Assumptions C18_pop_effect.
+
 Theorem C18_dead_is_absorbing : forall gc ops o j, stof (reach gc ops) j = Some Dead ->
   stof (fst (step o (reach gc ops))) j = Some Dead \/
-  (stof (fst (step o (reach gc ops))) j = None /\ (o = ODestroy j \/ o = OClose j)).
+  (stof (fst (step o (reach gc ops))) j = None /\ (o = ODestroy j \/ o = OClose j \/ o = OForget j)).
 Proof. exact dead_is_absorbing. Qed.
 Print Assumptions C18_dead_is_absorbing.
 
@@ -128,8 +195,8 @@ Theorem C18_invalid_transitions : forall gc ops, let s := reach gc ops in
   (forall vals, current s = None -> co_yield vals s = (CErr MCO_INVALID_COROUTINE, s)) /\
   (forall k c, get k (cos s) = Some c ->
      (co_st c = Running \/ co_st c = Normal) -> co_destroy k s = (CErr MCO_INVALID_OPERATION, s)) /\
-  (forall k c v, get k (cos s) = Some c -> 0 < List.length v -> co_cap c < co_stored c + List.length v ->
-     co_push k [v] s = (CErr MCO_NOT_ENOUGH_SPACE, s)) /\
+  (forall k c vs, get k (cos s) = Some c -> snd (fit (co_cap c) (storage c) vs) <> MCO_SUCCESS ->
+     co_push k vs s = (CErr MCO_NOT_ENOUGH_SPACE, s)) /\
   (forall k c n, get k (cos s) = Some c -> co_stored c < n -> co_pop k [n] s = (CErr MCO_NOT_ENOUGH_SPACE, [], s)) /\
   (forall k c n, get k (cos s) = Some c -> co_stored c < n -> mco_peek k true n s = (MCO_NOT_ENOUGH_SPACE, [])).
 Proof. exact invalid_transitions. Qed.
